@@ -33,6 +33,9 @@ func runRace(e *ev.Env) {
 		cfg.Idle, cfg.Abs, cfg.Gran = time.Hour, 0, 0
 		nreq := e.N(150, 400)
 		cfg.IDs = gen.Pick(r, idStyles)
+		if r.Bool() {
+			cfg.IDLen = gen.Pick(r, idLengths)
+		}
 		tag := r.StringFrom("0123456789abcdef", 6)
 
 		var issued sync.Map // id -> *int32 owner (-1 = not yet seen by a client)
@@ -53,7 +56,7 @@ func runRace(e *ev.Env) {
 			ErrorHandler: quietErrorHandler,
 			KeyGenerator: func() string {
 				n := int(ctr.Add(1))
-				id := styledID(cfg.IDs, n, tag)
+				id := sizedID(cfg.IDs, n, tag, cfg.IDLen)
 				o := &atomic.Int32{}
 				o.Store(-1)
 				issued.Store(id, o)
